@@ -443,5 +443,36 @@ def buildDict (transitions : List (List Nat)) (labels : List L) (toFilter : List
 def fromKbmag (transitions : List (List Nat)) (labels : List L) (initial : List Nat) : FSA Nat L :=
   fromGraphDict (buildDict transitions labels [0]) initial
 
+/-! ### operation histories -/
+
+/-- the in-place operations named by C09 (plus `copy.deepcopy`) -/
+inductive Op (V L : Type)
+  | addVertices (vs : List V)
+  | addEdges (es : List (V × V × L)) (ignoreRedundant : Bool)
+  | addEdgesL (es : List (V × V × List L)) (ignoreRedundant : Bool)
+  | deleteVertex (v : V)
+  | deleteVertices (vs : List V)
+  | recurrent
+  | rename (m : Dict L L)
+  | copy
+
+/-- apply one operation -/
+def applyOp (s : FSA V L) : Op V L → Except Err (FSA V L)
+  | .addVertices vs => .ok (s.addVertices vs)
+  | .addEdges es ir => s.addEdges es ir
+  | .addEdgesL es ir => s.addEdgesL es ir
+  | .deleteVertex v => s.deleteVertex v
+  | .deleteVertices vs => s.deleteVertices vs
+  | .recurrent => s.recurrent
+  | .rename m => s.rename m
+  | .copy => .ok s.copy
+
+/-- apply a history, stopping at the first operation that raises -/
+def run (s : FSA V L) : List (Op V L) → Except Err (FSA V L)
+  | [] => .ok s
+  | op :: ops => do
+    let s' ← s.applyOp op
+    run s' ops
+
 end FSA
 end GT
